@@ -263,6 +263,46 @@ pub fn block_leaves_fn(body: &syn::Block) -> bool {
     l.0
 }
 
+/// the same for an expression (closure bodies)
+pub fn expr_leaves_fn(e: &syn::Expr) -> bool {
+    let b: syn::Block = syn::Block { brace_token: Default::default(), stmts: vec![syn::Stmt::Expr(e.clone(), None)] };
+    block_leaves_fn(&b)
+}
+
+/// does `body` (of a loop) contain an unlabelled `break` that ends that loop?
+pub fn loop_has_own_break(body: &syn::Block) -> bool {
+    struct B {
+        depth: usize,
+        found: bool,
+    }
+    impl<'ast> Visit<'ast> for B {
+        fn visit_expr_break(&mut self, b: &'ast syn::ExprBreak) {
+            if b.label.is_none() && self.depth == 0 {
+                self.found = true;
+            }
+            visit::visit_expr_break(self, b);
+        }
+        fn visit_expr_while(&mut self, w: &'ast syn::ExprWhile) {
+            self.depth += 1;
+            visit::visit_expr_while(self, w);
+            self.depth -= 1;
+        }
+        fn visit_expr_for_loop(&mut self, f: &'ast syn::ExprForLoop) {
+            self.depth += 1;
+            visit::visit_expr_for_loop(self, f);
+            self.depth -= 1;
+        }
+        fn visit_expr_loop(&mut self, l: &'ast syn::ExprLoop) {
+            self.depth += 1;
+            visit::visit_expr_loop(self, l);
+            self.depth -= 1;
+        }
+    }
+    let mut b = B { depth: 0, found: false };
+    b.visit_block(body);
+    b.found
+}
+
 /// does `body` (of a loop labelled `label`) contain a `break` / `continue` that targets that loop?
 pub fn loop_has_jumps(body: &syn::Block, label: Option<&str>) -> bool {
     struct J<'l> {
